@@ -40,7 +40,7 @@ class Program(object):
         from rpyc.utils.helpers import BgServingThread
         self.funcs = {}
         off = 0
-        for key, f in (("wait", AsyncResult.wait), ("call", AsyncResult.__call__), ("serve", Connection.serve),
+        for key, f in (("areq", Connection._async_request), ("wait", AsyncResult.wait), ("call", AsyncResult.__call__), ("serve", Connection.serve),
                        ("dispatch", Connection._dispatch), ("seqcb", Connection._seq_request_callback),
                        ("bg", BgServingThread._bg_server)):
             c = CFG(f, label_offset=off)
@@ -146,16 +146,24 @@ class ServeModel(object):
             v["in%d" % i] = bv(0, IW)
         v["err"] = z3.BoolVal(False)
         for r in range(1, self.R + 1):
-            v["out%d" % r] = z3.BoolVal(True)        # reply not yet put on the wire by the peer
-            v["cb%d" % r] = z3.BoolVal(True)         # callback registered
+            v["out%d" % r] = z3.BoolVal(False)       # the request is on the wire and the peer has not answered it yet
+            v["cb%d" % r] = z3.BoolVal(False)        # callback registered
+            v["dropped%d" % r] = z3.BoolVal(False)   # the reply was dispatched while no callback was registered
             v["ready%d" % r] = z3.BoolVal(False)
             v["obj%d" % r] = bv(0, IW)
             v["disp%d" % r] = bv(0, 2)               # how often the frame was dispatched
         for t in range(self.T):
             is_bg = self.with_bg and t == self.T - 1
-            v["depth%d" % t] = bv(1, 3)
+            # a client thread first issues its request (_async_request, frame 1) and then waits for the result (wait, frame 0)
+            v["depth%d" % t] = bv(1 if is_bg else 2, 3)
             for d in range(DEPTH):
-                v["pc%d_%d" % (t, d)] = bv((self.p.funcs["bg"].entry if is_bg else self.p.funcs["wait"].entry) if d == 0 else 0, PCW)
+                if d == 0:
+                    pc0 = self.p.funcs["bg"].entry if is_bg else self.p.funcs["wait"].entry
+                elif d == 1 and not is_bg:
+                    pc0 = self.p.funcs["areq"].entry
+                else:
+                    pc0 = 0
+                v["pc%d_%d" % (t, d)] = bv(pc0, PCW)
             v["data%d" % t] = bv(0, IW)              # serve(): data
             v["seq%d" % t] = bv(0, IW)               # _dispatch(): seq
             v["cbf%d" % t] = z3.BoolVal(False)       # _seq_request_callback(): _callback is not None
@@ -417,6 +425,14 @@ class ServeModel(object):
                 if tp == "timeout":
                     self.goto(Wk, S, t, nxt)
                     return T
+                if fn == "areq" and tp == "seq":
+                    self.goto(Wk, S, t, nxt)          # the thread's own sequence number (thread t issues request t + 1)
+                    return T
+                if fn == "areq" and isinstance(tgt, ast.Subscript) and path(tgt.value) == "self._request_callbacks":
+                    if t < self.nwait:
+                        Wk.set("cb%d" % (t + 1), True)
+                    self.goto(Wk, S, t, nxt)
+                    return T
                 if tp == "data":
                     # data = self._channel.poll(timeout) and self._channel.recv()
                     v = s.value
@@ -455,6 +471,7 @@ class ServeModel(object):
                     for r in range(1, self.R + 1):
                         f = z3.If(seq == r, S.v["cb%d" % r], f)
                         Wk.set("cb%d" % r, False, seq == r)
+                        Wk.set("dropped%d" % r, True, z3.And(seq == r, z3.Not(S.v["cb%d" % r])))
                     Wk.set("cbf%d" % t, f)
                     self.goto(Wk, S, t, nxt)
                     return T
@@ -483,6 +500,11 @@ class ServeModel(object):
                     return T
                 if p == "self._dispatch":
                     self.call(Wk, S, t, "dispatch", nxt)
+                    return T
+                if fn == "areq" and p == "self._send":
+                    if t < self.nwait:
+                        Wk.set("out%d" % (t + 1), True)    # the request has left: from now on the peer may answer it
+                    self.goto(Wk, S, t, nxt)
                     return T
                 if p == "self._seq_request_callback":
                     self.call(Wk, S, t, "seqcb", nxt)
@@ -537,7 +559,7 @@ class ServeModel(object):
             if isinstance(s, ast.Assign):
                 tgt = s.targets[0]
                 tp = path(tgt) if isinstance(tgt, (ast.Name, ast.Attribute)) else None
-                if tp in ("timeout", "obj", "self._is_exc", "debug_msg"):
+                if tp in ("timeout", "obj", "self._is_exc", "debug_msg") or (fn == "areq" and tp == "seq"):
                     return True
                 if isinstance(tgt, ast.Tuple):
                     return True
@@ -589,6 +611,7 @@ class ServeModel(object):
         for r in range(1, self.R + 1):
             bad.append(z3.UGT(S.v["disp%d" % r], 1))                                   # a frame dispatched twice
             bad.append(z3.And(S.v["ready%d" % r], S.v["obj%d" % r] != r))               # someone else's reply
+            bad.append(S.v["dropped%d" % r])                                           # a reply dispatched to nobody: its request never completes
         for t in range(self.nwait):
             bad.append(S.v["timeout%d" % t])
             bad.append(z3.And(S.v["depth%d" % t] == 0, z3.Not(S.v["ready%d" % (t + 1)])))   # wait() returned without its reply
